@@ -202,7 +202,17 @@ fn run_merge(out: &mut Out, rng: &mut Rng, seq: &Seq, pool: &[IpAddr], via_csv: 
     let mut snapshots = 0;
     let mut snap = |w: &mut PerClientStats, q: &Arc<StatsQueue>| {
         // exactly what Server::send_client_stats does with its recorder
-        let clients: Vec<ClientStats> = w.iter().map(|(_, s)| *s).collect();
+        let mut clients: Vec<ClientStats> = w.iter().map(|(_, s)| *s).collect();
+        // workers first see an address at different times (the harness fills recorders within one
+        // second; spread the timestamps as a long-running server would have them)
+        FIRST_SEEN_SALT.with(|c| {
+            let mut x = c.get();
+            for cl in clients.iter_mut() {
+                x = x.wrapping_mul(6364136223846793005).wrapping_add(1442695040888963407);
+                cl.first_seen -= ((x >> 33) % 100_000) as i64;
+            }
+            c.set(x);
+        });
         if !clients.is_empty() {
             q.force_push(clients);
             w.clear();
@@ -286,6 +296,10 @@ fn run_merge(out: &mut Out, rng: &mut Rng, seq: &Seq, pool: &[IpAddr], via_csv: 
             out.inconclusive("report() wrote no file");
         }
     }
+}
+
+thread_local! {
+    static FIRST_SEEN_SALT: std::cell::Cell<u64> = const { std::cell::Cell::new(0x1234_5678_9abc_def1) };
 }
 
 fn random_seq(rng: &mut Rng, len: usize, naddr: usize) -> Seq {
